@@ -89,6 +89,10 @@ def prepare(verbose=True):
             shapes = json.load(open(summ))["shapes"]
         except Exception:
             pass
+        # 3b. per-table fact files for whatever tables the translator emitted
+        rc, out = sh([sys.executable, os.path.join(ROOT, "tools", "gen_facts.py")])
+        if rc != 0:
+            log.append("gen_facts failed: " + out)
         # 4. coq build (full .vo build, never -vos)
         sh([os.path.join(ROOT, "tools", "mkproject.sh")])
         rc, out = sh(["make", "-k", "-j%d" % NPROC], cwd=COQ, timeout=3000)
